@@ -56,6 +56,55 @@ def _lambda_body(call):
     return None
 
 
+def dask_total_bounds(P, R, rule):
+    """DaskGeoSeries.total_bounds reduces the per-partition bounds NaN-aware, lower bounds with min and upper bounds with max, column by column."""
+    DS = P.cls(f'{MOD}.DaskGeoSeries')
+    # ---------------------------------------------------------------- C06.b
+    tb = DS.members['total_bounds'][1]
+    red = 0
+    for c in astq.own_calls(tb):
+        fn = norm(c.func)
+        last = fn.split('.')[-1]
+        if last in ('min', 'max', 'amin', 'amax', 'nanmin', 'nanmax'):
+            red += 1
+            operand = c.args[0] if c.args else (c.func.value if isinstance(c.func, ast.Attribute) else None)
+            otxt = norm(operand) if operand is not None else ''
+            from effects import base_name
+            bn = base_name(operand) if operand is not None else None
+            if bn:
+                g0, d0 = astq.unique_def(tb, bn)
+                if isinstance(d0, ast.AST):
+                    otxt += ' <= ' + norm(d0)
+            # pandas reductions (also reached through np.min/np.max dispatch) skip NaN by default; numpy ones propagate it
+            is_numpy = any(k in otxt for k in ('.to_numpy(', '.values', 'np.asarray(', 'np.array(', '.to_records('))
+            skipna_off = any(k.arg == 'skipna' and norm(k.value) == 'False' for k in c.keywords)
+            nanaware = last.startswith('nan') or (not is_numpy and not skipna_off)
+            R.check(nanaware, rule, tb, c, f'`{fn}` ignores NaN partition bounds',
+                    f'`{norm(c)}` propagates NaN: one partition without any valid geometry (NaN bounds) turns the frame\'s total_bounds into NaN')
+    R.floor(rule, 'reductions in DaskGeoSeries.total_bounds', red, 2)
+    rets = [s for s in walk_own(tb.node) if isinstance(s, ast.Return)]
+    for rt in rets:
+        if isinstance(rt.value, ast.Tuple) and len(rt.value.elts) == 4:
+            for i, e in enumerate(rt.value.elts):
+                if isinstance(e, ast.Call):
+                    fn = norm(e.func).split('.')[-1]
+                    col = None
+                    a = e.args[0] if e.args else None
+                    if isinstance(a, ast.Subscript):
+                        col = astq.const_str(a.slice)
+                    elif isinstance(a, ast.Attribute):
+                        col = a.attr
+                    want_fn = 'min' if i < 2 else 'max'
+                    if col is None and isinstance(e.func, ast.Attribute) and isinstance(e.func.value, ast.Subscript):
+                        col = astq.const_str(e.func.value.slice)
+                    ok = col == COLS[i] and want_fn in fn
+                    R.check(ok, rule, tb, e, f'total_bounds[{i}] = {want_fn} over column {COLS[i]}',
+                            f'total_bounds[{i}] is `{norm(e)}`: expected the NaN-ignoring {want_fn} over column {COLS[i]}')
+        else:
+            R.abstain(rule, tb, rt, 'total_bounds is not returned as a literal 4-tuple of reductions; role/column layout not decided')
+
+
+
 def run(P, R, tier):
     common.array_token(P, R, 'C06.f')
     R.assume('S7: map_partitions(f) applies f to every partition; from_delayed keeps list order')
@@ -149,48 +198,7 @@ def run(P, R, tier):
     R.floor('C06.a', 'delegating Dask operations', n, 5)
 
     # ---------------------------------------------------------------- C06.b
-    tb = DS.members['total_bounds'][1]
-    red = 0
-    for c in astq.own_calls(tb):
-        fn = norm(c.func)
-        last = fn.split('.')[-1]
-        if last in ('min', 'max', 'amin', 'amax', 'nanmin', 'nanmax'):
-            red += 1
-            operand = c.args[0] if c.args else (c.func.value if isinstance(c.func, ast.Attribute) else None)
-            otxt = norm(operand) if operand is not None else ''
-            from effects import base_name
-            bn = base_name(operand) if operand is not None else None
-            if bn:
-                g0, d0 = astq.unique_def(tb, bn)
-                if isinstance(d0, ast.AST):
-                    otxt += ' <= ' + norm(d0)
-            # pandas reductions (also reached through np.min/np.max dispatch) skip NaN by default; numpy ones propagate it
-            is_numpy = any(k in otxt for k in ('.to_numpy(', '.values', 'np.asarray(', 'np.array(', '.to_records('))
-            skipna_off = any(k.arg == 'skipna' and norm(k.value) == 'False' for k in c.keywords)
-            nanaware = last.startswith('nan') or (not is_numpy and not skipna_off)
-            R.check(nanaware, 'C06.b', tb, c, f'`{fn}` ignores NaN partition bounds',
-                    f'`{norm(c)}` propagates NaN: one partition without any valid geometry (NaN bounds) turns the frame\'s total_bounds into NaN')
-    R.floor('C06.b', 'reductions in DaskGeoSeries.total_bounds', red, 2)
-    rets = [s for s in walk_own(tb.node) if isinstance(s, ast.Return)]
-    for rt in rets:
-        if isinstance(rt.value, ast.Tuple) and len(rt.value.elts) == 4:
-            for i, e in enumerate(rt.value.elts):
-                if isinstance(e, ast.Call):
-                    fn = norm(e.func).split('.')[-1]
-                    col = None
-                    a = e.args[0] if e.args else None
-                    if isinstance(a, ast.Subscript):
-                        col = astq.const_str(a.slice)
-                    elif isinstance(a, ast.Attribute):
-                        col = a.attr
-                    want_fn = 'min' if i < 2 else 'max'
-                    if col is None and isinstance(e.func, ast.Attribute) and isinstance(e.func.value, ast.Subscript):
-                        col = astq.const_str(e.func.value.slice)
-                    ok = col == COLS[i] and want_fn in fn
-                    R.check(ok, 'C06.b', tb, e, f'total_bounds[{i}] = {want_fn} over column {COLS[i]}',
-                            f'total_bounds[{i}] is `{norm(e)}`: expected the NaN-ignoring {want_fn} over column {COLS[i]}')
-        else:
-            R.abstain('C06.b', tb, rt, 'total_bounds is not returned as a literal 4-tuple of reductions; role/column layout not decided')
+    dask_total_bounds(P, R, 'C06.b')
 
     # ---------------------------------------------------------------- C06.c
     ix = P.func(MOD, '_DaskCoordinateIndexer._perform_get_item')
